@@ -184,6 +184,22 @@ impl Automerge {
         proof { axiom_actor_order(); }
 //@ end
 
+//@ fn rust/automerge/src/automerge.rs | impl Automerge | get_or_create_actor_index
+//@   ret r
+//@   spec
+        requires old(self).wf(), old(self).ops.actors.len() < usize::MAX,
+        ensures final(self).wf(), final(self).actor == Actor::Cached(r), r < final(self).ops.actors.len(),
+            // C30: the document keeps writing under the SAME actor id, now through a cached table index
+            Self::same_actors(*old(self), *final(self)),
+            old(self).actor is Cached ==> *final(self) == *old(self),
+//@ end
+
+//@ fn rust/automerge/src/automerge.rs | impl Automerge | get_actor_index
+//@   ret r
+//@   spec
+        ensures self.actor matches Actor::Cached(i) ==> r == Some(i), self.actor is Unused ==> r is None,
+//@ end
+
 //@ fn rust/automerge/src/automerge.rs | impl Automerge | put_actor_ref
 //@   ret r
 //@   subst /self\.ops\.actors\.binary_search\(actor\)/ => vf_binary_search(&self.ops.actors, actor)
